@@ -513,7 +513,7 @@ Lemma validate_fields h p f :
   f_palette f = pi_palette p /\ f_default_time f = pi_default_time p /\ f_times f = pi_times p /\
   f_ext f = pi_ext p.
 Proof.
-  unfold validate. intros H.
+  unfold validate; rewrite ?frev_eq. intros H.
   apply rbind_ok in H. destruct H as (parents & _ & H).
   apply rbind_ok in H. destruct H as (tss & _ & H).
   apply rbind_ok in H. destruct H as (u & _ & H).
